@@ -208,6 +208,11 @@ fn parse_path(
                     .to_err_vec()?;
                 let lhs_ty = lhs_ty.assume_type_of_self(&user_data);
 
+                // importers cannot assign to what a module exports, whichever name the module
+                // is bound to
+                let is_const =
+                    is_const || matches!(lhs_ty.disregard_distractors(true), TypeLayout::Module(..));
+
                 let (dot_chain, expected_type) = Parser::dot_chain(
                     Node::new_with_user_data(op, Rc::clone(&user_data)),
                     Cow::Borrowed(&lhs_ty),
